@@ -31,7 +31,7 @@ class Gen:
         if self.bias == "C03":
             return ["timer"] * 4 + ["idle"] * 4 + ["prepare"] * 4 + ["check"] * 4 + ["async"] * 2 + ["poll"] * 3 + ["udp", "signal"]
         if self.bias == "C02":
-            return ["timer"] * 3 + ["idle", "prepare", "check"] * 2 + ["async"] * 3 + ["poll"] * 4 + ["udp"] * 4 + ["tcp", "pipe", "signal", "fs_event"]
+            return ["timer"] * 3 + ["idle", "prepare", "check"] * 2 + ["async"] * 3 + ["poll"] * 4 + ["udp"] * 4 + ["pipe"] * 3 + ["tcp", "signal", "fs_event"]
         return ["timer"] * 3 + ["idle", "prepare", "check", "async", "poll"] * 2 + ["udp"] * 2 + ["tcp", "pipe", "signal", "fs_event"] * 2
 
     def tmo(self):
@@ -80,7 +80,7 @@ class Gen:
                 i = self.pick(("async",))
                 if i is not None: return f"async_send h{i}"
             elif x < 67:
-                if r.chance(1, 6): return "work_null"
+                if r.chance(1, 4): return r.choice(["work_null", "reject getaddrinfo", "reject getnameinfo", "reject random"])
                 self.nreq_est += 1; return "work"
             elif x < (75 if b == "C02" else 71):
                 i = self.pick(("udp",))
@@ -107,7 +107,8 @@ class Gen:
                 k = r.choice(self.kind_weights()); self.kinds.append(k)   # id is a guess when issued from a callback
                 return f"init {k}"
             elif x < 98:
-                i = self.pick(("udp",))
+                i = self.pick(("udp", "pipe"))
+                if i is not None and self.kinds[i] == "pipe": self.nreq_est += 1; return f"connect_bad h{i}"
                 if i is not None: return f"bind h{i}"
             else:
                 # malformed stream: illegal-but-defined ops
@@ -151,6 +152,12 @@ class Gen:
                 if key == "h": ops.append(f"close h{i}")
                 if sib: ops.append(f"close h{r.choice(sib)}")
             self.on.append(f"on {key}{i} {occ} " + " ; ".join(ops))
+        # deferred connect errors: delivered by the pending phase, or cancelled by a close issued before it
+        for i, k in enumerate(self.kinds[:nh0]):
+            if k == "pipe" and r.chance(2, 3):
+                self.main.append(f"op connect_bad h{i}")
+                if r.chance(1, 2):
+                    self.maybe_closed.add(i); self.main.append(f"op close h{i}")
         # same-batch readiness
         for i, k in enumerate(self.kinds[:nh0]):
             if k == "poll" and r.chance(2, 3): self.main.append(f"op make_readable h{i}")
@@ -160,6 +167,13 @@ class Gen:
             for _ in range(r.below(4)):
                 self.main.append("op " + self.rand_op(False))
             if r.chance(1, 8): self.main.append("op loop_close")
+        if r.chance(1, 5):
+            # uv_loop_close while only requests are outstanding (every handle closed and delivered, work still owed)
+            for i in range(len(self.kinds) + 1):
+                self.main.append(f"op close h{i}")
+            self.main.append("op run NOWAIT")
+            self.main.append("op " + r.choice(["work", "work", "udp_send_bad h0", "work_null"]))
+            self.main.append("op loop_close")
         if r.chance(5, 6):
             for i in range(len(self.kinds) + 1):
                 self.main.append(f"op close h{i}")
@@ -183,8 +197,10 @@ def parse_obs(l):
         return None
     hs = {}
     for w in m.group(8).split():
-        n, f = w.split("=")
-        hs[int(n[1:])] = f
+        mm = re.fullmatch(r"h(\d+)=([A-])([R-])([C-])", w)
+        if not mm:
+            return None          # truncated / corrupt line (the harness died while printing)
+        hs[int(mm.group(1))] = mm.group(2) + mm.group(3) + mm.group(4)
     return dict(alive=int(m.group(1)), ah=int(m.group(2)), ar=int(m.group(3)), stop=int(m.group(4)),
                 nh=int(m.group(5)), now=int(m.group(6)), pq=[] if m.group(7) == "-" else m.group(7).split(","), hs=hs)
 
@@ -267,8 +283,10 @@ class Mon:
                     inflight = any(q["owed"] and q["h"] == hid for q in Rq.values())
                     own_cb = any(k == "udp_send" and Rq.get(r_, {}).get("h") == hid for k, r_ in cbstack)
                     Rq[nreq] = dict(kind="udp", h=hid, owed=True, cancelled=False, sync=not inflight and not own_cb); nreq += 1
-                elif op in ("work_null", "udp_send_bad"):
-                    want = -22 if op == "work_null" else -89
+                elif op == "connect_bad":
+                    Rq[nreq] = dict(kind="connect", h=hid, owed=True, cancelled=False); nreq += 1
+                elif op in ("work_null", "udp_send_bad", "reject"):
+                    want = -89 if op == "udp_send_bad" else -22
                     if ret != want:
                         self.bad("C01", "sync-reject-ret", f"{op} returned {ret}, expected {want}", i)
                     if o0 and nxt and (o0["ar"], o0["ah"], o0["alive"]) != (nxt["ar"], nxt["ah"], nxt["alive"]):
@@ -338,7 +356,7 @@ class Mon:
                               obs_at_start=last_obs, closing_at_start={h for h, d in H.items() if d["closing"] and not d["dead"]},
                               start_line=i, stop_seen=bool(last_obs and last_obs["stop"]), cur_iter=None, first_iter=None,
                               adv_since_poll=False, udp_since_poll=False,
-                              udp_owed_at_start=any(q["owed"] and q["kind"] == "udp" for q in Rq.values()),
+                              udp_owed_at_start=any(q["owed"] and q["kind"] in ("udp", "connect") for q in Rq.values()),
                               # uv_run starts with uv__update_time when the loop is dead, or in DEFAULT mode when alive and not stopped
                               fresh=not (last_obs and (not last_obs["alive"] or (l.split()[1] == "DEFAULT" and not last_obs["stop"]))))
                 i += 1; continue
@@ -400,6 +418,14 @@ class Mon:
                         if q["kind"] == "work":
                             if status != (-125 if q["cancelled"] else 0):
                                 self.bad("C02", "work-status", f"after_work_cb status {status}, cancelled={q['cancelled']}", i)
+                        elif q["kind"] == "connect":
+                            hh = H.get(q["h"])
+                            closing = bool(hh and hh["closing"])
+                            if status != (-125 if closing else -22):
+                                self.bad("C02", "connect-status", f"connect_cb status {status} (handle closing={closing}): a pending connect "
+                                         "must be failed with UV_ECANCELED by uv_close, with its own error otherwise", i)
+                            if closing and hh and not hh["dead"] and self.cp is None:
+                                self.cp = {x for x, d in H.items() if d["closing"] and not d["dead"]}
                         else:
                             hh = H.get(q["h"])
                             if status not in (0, -125) or (status == -125 and not (hh and hh["closing"])) or (status == -125 and q["sync"]):
@@ -407,10 +433,10 @@ class Mon:
                             if hh and hh["closing"] and not hh["dead"] and self.cp is None:
                                 self.cp = {x for x, d in H.items() if d["closing"] and not d["dead"]}
                 if in_run is not None:
-                    if kind not in ("close", "udp_send"):
+                    if kind not in ("close", "udp_send", "connect"):
                         self.cp = None
                     if kind in ("timer", "idle", "prepare"): in_run["fresh"] = True
-                    if kind == "udp_send": in_run["udp_since_poll"] = True
+                    if kind in ("udp_send", "connect"): in_run["udp_since_poll"] = True
                     in_run["top"].append(("cb", kind, num, i))
                     self.on_top_cb(in_run, kind, num, i)
                 cbstack.append((kind, num)); depth += 1
@@ -461,7 +487,8 @@ class Mon:
             self.bad("C01", "alive-zero-inside-closing-batch", f"uv_loop_alive()=0 inside the closing phase while handles "
                      f"{sorted(pending_close & close_phase)} of the batch being delivered still await their close_cb", i)
         elif (o["alive"] == 1 and not hi and o["ah"] == 0 and o["ar"] == 0 and o["pq"]
-              and all(p != "?" and H.get(int(p[1:]), {}).get("kind") == "udp" for p in o["pq"])):
+              and all(p != "?" and H.get(int(p[1:]), {}).get("kind") == "udp" for p in o["pq"])
+              and not any(q["owed"] for q in Rq.values())):
             # known deviation: a udp watcher re-fed into the pending queue by uv__udp_sendmsg called from uv__udp_io
             self.stats["alive_spurious_udp_feed"] = self.stats.get("alive_spurious_udp_feed", 0) + 1
             self.bad("C01", "alive-only-spurious-udp-pending-feed", f"uv_loop_alive()=1 with nothing owed; pending_queue holds only "
@@ -505,7 +532,7 @@ class Mon:
             r["stop_limit"] = ("first", kind)
         elif kind in ("idle", "prepare"):
             r["stop_limit"] = ("iter", cur + 1)
-        elif kind == "udp_send":
+        elif kind in ("udp_send", "connect"):
             r["stop_limit"] = ("iter", cur + 1)     # pending phase of the next iteration or late phase of this one
         else:
             r["stop_limit"] = ("iter", cur)
@@ -518,7 +545,7 @@ class Mon:
         idle_now = any(H.get(h, {}).get("kind") == "idle" and f[0] == "A" for h, f in o["hs"].items())
         closing = any(d["closing"] and not d["dead"] and h not in (self.cp or ()) for h, d in H.items())
         zero = mode == "NOWAIT" or o["stop"] == 1 or idle_now or closing or (o["ah"] <= 0 and o["ar"] <= 0)
-        lenient = any(q["owed"] and q["kind"] == "udp" for q in Rq.values())
+        lenient = any(q["owed"] and q["kind"] in ("udp", "connect") for q in Rq.values())
         if mode == "ONCE" and obs_start is not None:
             if any(H.get(h, {}).get("kind") == "idle" and f[0] == "A" for h, f in obs_start["hs"].items()):
                 zero = True
@@ -600,7 +627,8 @@ class Mon:
 
     def check_phases(self, r, i, complete):
         """phase automaton over the top-level callbacks of one uv_run + once-per-iteration"""
-        pos_of = {"idle": (2,), "prepare": (3,), "check": (6,), "close": (7,), "timer": (8,), "udp_send": (1, 4, 5, 7)}
+        pos_of = {"idle": (2,), "prepare": (3,), "check": (6,), "close": (7,), "timer": (8,), "udp_send": (1, 4, 5, 7),
+                  "connect": (1, 5, 7)}
         states = {(0, False, 0)}
         percount = {}
         cur = None
@@ -635,6 +663,8 @@ class Mon:
 
 
 def monitors(log, rc, err, metrics):
+    if rc != 0 and log and not re.match(r"(obs alive=\d ah=-?\d+ ar=-?\d+ stop=\d nh=\d+ now=\d+ pq=\S+( h\d+=[A-][R-][C-])*|op .* -> (ret -?\d+|bad-op)|cb \w+ [hr]\d+( \S+)*|endcb|run \w+|env poll .*)$", log[-1]):
+        log = log[:-1]          # the harness died while printing this line
     m = Mon(log, rc, err)
     m.metrics = metrics
     try:
@@ -689,7 +719,8 @@ def watcher_exactly_once(log):
             m = POLL_RE.match(l)
             seg = dict(obs=[], cbs={}, first=False, start=i, iter=int(m.group(1))) if m else None
         elif l.startswith("obs alive") and seg is not None:
-            seg["obs"].append(parse_obs(l))
+            o = parse_obs(l)
+            if o is not None: seg["obs"].append(o)
         elif l.startswith("cb ") and seg is not None:
             w = l.split()
             if w[1] in WATCHERS:
@@ -720,7 +751,10 @@ def prog_metrics(prog):
 def evaluate(ctx, exe, prog, tag, with_model=True):
     rc, log, err = run_impl(ctx, exe, prog, tag)
     mon = monitors(log, rc, err, prog_metrics(prog))
-    mon.v["C03"] += watcher_exactly_once(log)
+    try:
+        mon.v["C03"] += watcher_exactly_once(log)
+    except Exception as ex:
+        mon.v["C03"].append(("monitor-crash", "watcher_exactly_once raised " + repr(ex)))
     diff = None
     if with_model and rc == 0:
         ml = run_model(ctx, prog, log)
